@@ -17,7 +17,7 @@ pub fn prop() -> Prop {
         rule: "(a) the full table of < <= > >= = != over a 103-text universe (incl. non-integral numbers one unit in the last place apart) (with -0, -0.0 next to 0, 0.0, and objects that differ only in member order, for which only the order axioms are required) of all types (equal-by-value spellings, numbers |n|<2^53 or non-integral) through the real functions, then totality, antisymmetry w.r.t. =, transitivity over all triples, congruence of =, agreement with the documented order; (b) --sort-by on all streams of <=5 (thorough <=7) rows {k,v,id} over the keys {\"b\",\"a\",2,null,absent} x 24 key/direction configurations (three repeat a selection with another direction; four use keys that are calls whose option texts share their first word or differ in one blank) (1..3 keys; omitted/ASC/DESC/asc/Desc; `=` and blank separators), all streams of <=4 (thorough <=5) rows over 16 keys of all types (0 and -0 among them) in both directions, and long streams with >11 distinct keys and >8 rows per key; (c) sort, sort_unique, sort_by, sort_by_keys, sort_by_values, sort_by_values_by on all lists/objects of <=5 (thorough <=6) elements over an 8-value universe, and on lists/objects of 20..100 elements with distinguishable ties; non-trivial = the input holds a tie between distinguishable rows, an absent key or two types; distinct by construction",
         explanation: "rows carry ids, so permutation, stability and multi-key order are observable; the output is compared with the reference pipeline (stable lexicographic insertion sort under the documented order) and, independently, checked to be a permutation of the sortable rows in which tied neighbours keep arrival order",
         assumptions: COMMON_ASSUMPTIONS.to_vec(),
-        guards: vec!["command-line-respelled", "tie-between-distinguishable-rows", "absent-key-dropped", "mixed-types", "three-keys", "desc", "more-than-11-distinct-keys", "more-than-8-rows-per-key", "order-table-complete", "function-sorts-with-ties"],
+        guards: vec!["member-names-beyond-ascii-letters", "command-line-respelled", "tie-between-distinguishable-rows", "absent-key-dropped", "mixed-types", "three-keys", "desc", "more-than-11-distinct-keys", "more-than-8-rows-per-key", "order-table-complete", "function-sorts-with-ties"],
         budget_s: (100, 2400),
         single_worker: false,
         run,
@@ -272,7 +272,8 @@ fn check_sort(ctx: &mut Ctx, sc: &SortCfg, rows: &[V]) {
 /// (c) the sorting functions on every list / object over a small universe
 fn check_function(ctx: &mut Ctx, text: &str, input: &V) {
     let e: E = p(text);
-    let case = Case::owned(vec![format!("--select={}=x", expr::show(&e))], (expr::const_text(input) + "\n").into_bytes());
+    // raw UTF-8 output: the \\u spelling of characters outside the BMP is C02's subject (a known finding there)
+    let case = Case::owned(vec!["--utf8-strings".to_string(), format!("--select={}=x", expr::show(&e))], (expr::const_text(input) + "\n").into_bytes());
     let obs = ctx.run(&case);
     ctx.case_done();
     ctx.trace_validated();
@@ -409,6 +410,32 @@ fn run(ctx: &mut Ctx) {
             }
         }
         ctx.level_done(&format!("c:functions-on-all-lists-and-objects-of-{len}"));
+    }
+    // member names: every arrangement of <= 3 distinct names out of 14 (the empty name, letters in both cases, names that
+    // look like numbers, non-ASCII names on both sides of the surrogate range and beyond the BMP) through sort_by_keys,
+    // and the same strings as values through sort / sort_by_values (strings are ordered by code point)
+    {
+        let names = ["", "a", "B", "b", "A", "10", "9", "1a", "\u{e9}", "\u{ff21}", "\u{1f600}", "\u{e000}", "a b", "\u{d7ff}"];
+        let mut todo: Vec<Vec<usize>> = Vec::new();
+        crate::explore::seqs_upto(names.len(), 3, |i| {
+            if (0..i.len()).all(|a| (0..a).all(|b| i[a] != i[b])) && i.len() >= 2 {
+                todo.push(i.to_vec());
+            }
+        });
+        for idx in todo {
+            if !ctx.mine() {
+                continue;
+            }
+            ctx.guard("member-names-beyond-ascii-letters");
+            ctx.nontrivial();
+            let obj = V::Obj(idx.iter().enumerate().map(|(j, i)| (names[*i].to_string(), V::int(j as i128))).collect());
+            check_function(ctx, "(sort_by_keys .)", &obj);
+            let list = V::Arr(idx.iter().map(|i| V::s(names[*i])).collect());
+            check_function(ctx, "(sort .)", &list);
+            let vals = V::Obj(idx.iter().enumerate().map(|(j, i)| (format!("m{j}"), V::s(names[*i]))).collect());
+            check_function(ctx, "(sort_by_values .)", &vals);
+        }
+        ctx.level_done("c:member-names-and-strings-of-14-kinds(arrangements-of-2..3)");
     }
     // long lists / objects with distinguishable ties (library sorts switch algorithm with the length)
     for n in [20usize, 21, 32, 33, 40, 57, 100] {
